@@ -30,15 +30,21 @@ def excTok : Option Exc → String
   | some (.body e) => s!"body:{e}"
   | some (.rpc ev) => s!"rpc:{evTok ev}"
 
-/-- `lk run <answers: o|w|e by arrival index, comma separated, default o> <prog tokens…>` → `<trace> <exc>` -/
+def parseMode (t : String) : Option Mode :=
+  if t = "all" then some .all else if t = "errors" then some .errors else if t = "none" then some .none else none
+
+/-- `lk run <mode: all|errors|none> <answers: o|w|e by arrival index, comma separated, default o> <prog tokens…>` → `<trace> <exc>` -/
 def lockCmd (args : List String) : String :=
   match args with
-  | "run" :: ansT :: progT =>
+  | "run" :: modeT :: ansT :: progT =>
+    match parseMode modeT with
+    | none => "bad-args"
+    | some m =>
     let answers := (tokList ansT).map fun a => if a = "e" then Ans.error else if a = "w" then Ans.warning else Ans.ok
     let srv : Server := fun tr => answers.getD (tr.length - 1) .ok
     match parseProg 10000 progT with
     | some (p, []) =>
-      let (tr, x) := run srv p []
+      let (tr, x) := run srv m p []
       s!"{listTok (tr.map evTok)} {excTok x}"
     | _ => "bad-args"
   | _ => "bad-op"
